@@ -880,6 +880,72 @@ def edge_worker(spec_path):
         json.dump({"outcome": outcome, "cpu": multiprocessing.cpu_count(), "threads": threads, "n": n}, f)
 
 
+def own_frame_worker(out_path):
+    """which classes of objects stored inside cells does `_own_frame` duplicate?  One object column per class; a write into the cell
+    of the frame handed out must not reach the shared frame.  `managerCellsCopied` / `Mode.cellsCopied` cover list, dict and set cells
+    (and every other cell of a column that holds at least one of those); the other classes are recorded, not judged."""
+    import logging
+    logging.disable(logging.CRITICAL)
+    sys.path.insert(0, os.environ.get("DEMETER_REPO", "/repo"))
+    import collections
+    import numpy as np
+    import pandas as pd
+    import demeter.core.backtest as bt
+
+    class Box:
+        def __init__(self):
+            self.v = [1.0]
+    idx = pd.date_range(T0, periods=3, freq="min")
+    makers = {
+        "list": (lambda: [[0.5, 1.0]], lambda c: c[0].__setitem__(1, 9.0), lambda c: c[0][1]),
+        "dict": (lambda: {"a": [1.0]}, lambda c: c["a"].__setitem__(0, 9.0), lambda c: c["a"][0]),
+        "set": (lambda: {1}, lambda c: c.add(9), lambda c: sorted(c)),
+        "list+object in one column": None,
+        "tuple of lists": (lambda: ([0.5, 1.0],), lambda c: c[0].__setitem__(1, 9.0), lambda c: c[0][1]),
+        "numpy array": (lambda: np.array([1.0, 2.0]), lambda c: c.__setitem__(0, 9.0), lambda c: float(c[0])),
+        "deque": (lambda: collections.deque([1.0]), lambda c: c.append(9.0), lambda c: list(c)),
+        "user object": (lambda: Box(), lambda c: c.v.__setitem__(0, 9.0), lambda c: c.v[0]),
+    }
+    out = {}
+    for name, mk in makers.items():
+        try:
+            if mk is None:
+                cells = [[[0.5, 1.0]], Box(), Box()]
+                write, read = (lambda c: c.v.__setitem__(0, 9.0)), (lambda c: c.v[0])
+                k = 1
+            else:
+                cells, write, read, k = [mk[0]() for _ in idx], mk[1], mk[2], 0
+            shared = pd.DataFrame({"x": [1.0, 2.0, 3.0], "cell": pd.Series(cells, index=idx, dtype=object)}, index=idx)
+            before = repr(read(shared["cell"].iloc[k]))
+            own = bt._own_frame(shared)
+            write(own["cell"].iloc[k])
+            out[name] = repr(read(shared["cell"].iloc[k])) == before
+        except Exception as e:  # noqa: BLE001
+            out[name] = "error: " + type(e).__name__
+    json.dump(out, open(out_path, "w"))
+
+
+OWN_FRAME_COVERED = ("list", "dict", "set", "list+object in one column")
+
+
+def own_frame_probe(ctx):
+    """the class of cell objects `cellsCopied = true` speaks about, measured on `_own_frame` itself"""
+    with tempfile.TemporaryDirectory(prefix="c19o_", dir=work_dir()) as d:
+        op = os.path.join(d, "_own.json")
+        subprocess.run([sys.executable, os.path.abspath(__file__), "--ownframe", op], stdout=subprocess.PIPE, stderr=subprocess.PIPE, timeout=300)
+        res = json.load(open(op)) if os.path.exists(op) else None
+    if res is None:
+        ctx.note("own_frame_probe", "no result")
+        return
+    ctx.note("own_frame_cell_classes_isolated", res)
+    for k, v in res.items():
+        ctx.case(f"own-frame:{k}:{'isolated' if v is True else 'shared' if v is False else v}")
+        if k in OWN_FRAME_COVERED and v is not True:
+            ctx.violate(f"manager._own_frame:cell-not-copied:{k}", f"_own_frame hands out a frame whose '{k}' cells are the shared frame's own objects ({v}): a write "
+                        "into such a cell by one backtest is seen by every later backtest of the process", {"own_frame_probe": k})
+    ctx.note("own_frame_not_covered", sorted(k for k, v in res.items() if k not in OWN_FRAME_COVERED and v is not True))
+
+
 EDGE = ["no-config", "no-data", "no-strategies", "too-many-threads", "zero-threads", "second-pooled-run"]
 
 
@@ -1336,6 +1402,7 @@ def cow_probe(ctx):
 
 def run(ctx):
     cow_probe(ctx)
+    own_frame_probe(ctx)
     from common import driver_json
     from concurrent.futures import ThreadPoolExecutor
     cases = gen_cases(ctx)
@@ -1416,6 +1483,11 @@ def replay(ctx, case) -> bool:
     if "cow_probe" in case:
         res = measure_cow()
         return all(res.get(k, True) for k in case["cow_probe"])
+    if "own_frame_probe" in case:
+        own_frame_probe(sub)
+        for v in sub.violations:
+            print("  ", v["key"], v["what"])
+        return not sub.violations
     if "args" not in case:
         case = dict(case, args=[None] * len(case["behaviours"]))
     case.setdefault("price_kind", "float")
@@ -1435,3 +1507,5 @@ if __name__ == "__main__":
         worker(sys.argv[2])
     elif len(sys.argv) == 3 and sys.argv[1] == "--edge":
         edge_worker(sys.argv[2])
+    elif len(sys.argv) == 3 and sys.argv[1] == "--ownframe":
+        own_frame_worker(sys.argv[2])
